@@ -20,7 +20,7 @@ for prop in sorted(os.listdir(os.path.join(V, "seeded"))):
         def cell(t):
             if t not in r:
                 return "-"
-            if r[t]["exit"] == 0 and "not a violation of" in notes.get(mid, "") + notes.get(mid, "").replace("outside C", "not a violation of C"):
+            if r[t]["exit"] == 0 and ("not a violation of" in notes.get(mid, "") or "outside C" in notes.get(mid, "") or "not a C04 violation" in notes.get(mid, "")):
                 return "out of scope"
             return {1: "caught", 0: "MISSED"}.get(r[t]["exit"], "exit %s" % r[t]["exit"])
         key = ""
